@@ -52,6 +52,7 @@ type stateProfile struct {
 	checked int
 	ops     []string
 	pidUsed map[string]bool
+	podSpecs map[string]*corev1.Pod
 }
 
 func init() { Profiles["state"] = func() Profile { return &stateProfile{} } }
@@ -67,6 +68,7 @@ func (p *stateProfile) build() {
 func (p *stateProfile) Run(s *Sim) {
 	p.s, p.ch = s, s.Ch
 	p.pidUsed = map[string]bool{}
+	p.podSpecs = map[string]*corev1.Pod{}
 	p.e = NewEnv(s)
 	p.e.Opts = DefaultOptions()
 	s.DrawKnobs()
@@ -262,6 +264,12 @@ func (p *stateProfile) op() {
 			return
 		}
 		pod := p.genPod(name)
+		// a name is only reused by the same workload (StatefulSet-like): same spec, possibly another node
+		if prev := p.podSpecs[name]; prev != nil {
+			pod = prev.DeepCopy()
+		} else {
+			p.podSpecs[name] = pod.DeepCopy()
+		}
 		if o := p.pickObj(gvkNode, "state.pick"); o != nil && p.ch.Pick("state.bound", 4) != 0 && trackable(o.(*corev1.Node)) {
 			pod.Spec.NodeName = o.GetName()
 		}
